@@ -915,7 +915,7 @@ func (c *Ctx) errorsPropagate(rule string, fn *ssa.Function) {
 			if strings.HasPrefix(name, pLog) || name == "fmt.Errorf" || name == "errors.New" || name == "github.com/matoous/go-nanoid.Nanoid" {
 				continue // constructors of errors, not failures
 			}
-			if !isModuleCallee(name) && classify(name) == effOut {
+			if !isModuleCallee(name) && (classify(name) == effOut || c.isStdStreamWrite(Site{Fn: fn, Instr: call, Callee: name})) {
 				continue // printing on stdout/stderr: its error is conventionally ignored
 			}
 			for i, ret := range rets {
